@@ -4,9 +4,11 @@ import (
 	"bytes"
 	"fmt"
 	"io"
+	"os"
 	"runtime"
 	"strings"
 	"sync/atomic"
+	"syscall"
 	"testing/synctest"
 	"time"
 	"unsafe"
@@ -722,12 +724,21 @@ func runC12faulty(c *Ctx) {
 		}
 		sink.WritePlan = append(sink.WritePlan, o)
 	}
-	for i := 0; i < 6; i++ {
+	// one run in four: a device that cannot be synced at all (a pipe or a
+	// terminal: every Sync answers EINVAL or ENOTTY) - its write faults still count
+	unsyncable := f.Chance(4)
+	for i := 0; i < 6 || (unsyncable && i < 64); i++ {
 		var se error
 		if f.Chance(5) {
 			se = fmt.Errorf("injected sync error #%d", i)
 		}
+		if unsyncable {
+			se = &os.PathError{Op: "sync", Path: "/dev/stdout", Err: []error{syscall.EINVAL, syscall.ENOTTY}[i%2]}
+		}
 		sink.SyncPlan = append(sink.SyncPlan, se)
+	}
+	if unsyncable {
+		c.R.Probe("device whose every Sync answers EINVAL/ENOTTY")
 	}
 	clk := zsim.NewSimClock(r, drawEpoch(g))
 	size := pick(g, 4, 8, 16, 32, 64)
